@@ -126,7 +126,8 @@ func (v *verdicts) report(ctx *core.Ctx) {
 }
 
 func replayCaseOf(r *record) *conCase {
-	return &conCase{Kind: r.Kind, CSR: r.CSR, Layers: r.Layers, File: r.File, Opt: r.Opt, Origin: r.Origin, Probes: r.ProbeCodes}
+	return &conCase{Kind: r.Kind, CSR: r.CSR, Layers: r.Layers, File: r.File, Opt: r.Opt, Origin: r.Origin, Probes: r.ProbeCodes,
+		ParentName: r.ParentName, CloneStep: r.CloneStep, Predefined: r.Predefined}
 }
 
 // judge sends records to TLC and files the rejected ones.  suspects[i] is the
@@ -349,6 +350,19 @@ func runTable(ctx *core.Ctx, v *verdicts) error {
 
 func runRandom(ctx *core.Ctx, v *verdicts) error {
 	cases := randomCases(ctx)
+	// predefined CMaps from the package cache: Clone + SetMapping on the clone
+	var frames []record
+	for i, name := range []string{"90ms-RKSJ-H", "UniGB-UCS2-H", "Identity-H", "GBK-EUC-H", "UniJIS-UCS2-V"} {
+		fc := &conCase{Kind: "frame-cid", Predefined: name, Origin: "predefined:" + name,
+			Probes: [][]int{{0x20}, {0x41}, {0x81, 0x40}, {0x00, 0x41}, {0x4e, 0x00}, {0xff, 0xff}, {0x8e, 0xa1}, {byte2(i), 0x21}}}
+		frames = append(frames, frameCase(fc))
+	}
+	if err := judge(ctx, frames, nil, v, 10, 1); err != nil {
+		return err
+	}
+	for i := range frames {
+		ctx.Ev.Eval(2 * len(frames[i].Probes))
+	}
 	recs := make([]record, 2*len(cases))
 	var (
 		wg    sync.WaitGroup
@@ -553,18 +567,29 @@ func classify(r *record) (k, what string) {
 		return fmt.Sprintf("cid/enumeration-or-codespace/%s/%s", r.Stage, shape),
 			"All / code space disagree with the map although every probed LookupCID is right"
 	}
+	if r.Kind == "frame-cid" {
+		return "frame-cid/clone-setmapping-changes-original", fmt.Sprintf("SetMapping on a Clone of the predefined CMap %s changes what the cached original answers", r.Predefined)
+	}
 	return fmt.Sprintf("%s/%s/ranges=%d/len=%s", r.Kind, r.Stage, len(r.File.Ranges), lens(r.CSR)),
 		"lookup and enumeration of a hand-made file with rectangular ranges disagree with value + lexicographic rank"
 }
 
 // ---------------------------------------------------------------------------
 
+func byte2(i int) int { return 0x30 + i }
+
 func replay(ctx *core.Ctx, raw json.RawMessage) error {
 	var c conCase
 	if err := json.Unmarshal(raw, &c); err != nil {
 		return core.Infra("replay: %v", err)
 	}
-	recs, err := runBatch([]*conCase{&c}, 0)
+	var recs []record
+	var err error
+	if c.Kind == "frame-cid" {
+		recs = []record{frameCase(&c)}
+	} else {
+		recs, err = runBatch([]*conCase{&c}, 0)
+	}
 	if err != nil {
 		return core.Infra("replay: %v", err)
 	}
